@@ -162,6 +162,7 @@ def regenerate_tr():
     importlib.reload(pytr)
     write_if_changed(os.path.join(COQ, 'Gen', 'Tr.v'), pytr.generate())
     write_if_changed(os.path.join(COQ, 'Gen', 'TrF.v'), pytr.generate_float())
+    write_if_changed(os.path.join(COQ, 'Gen', 'TrS.v'), pytr.generate_state())
 
 
 def regenerate_gen(pid):
@@ -299,7 +300,7 @@ def check_proofs(pid, res, tier='quick'):
     cone = sorted(set(deps) | set(deps_of('Run/%s.v' % pid)))
     # every generated file in the cone (also those of the properties whose models are re-used) is regenerated
     # from /repo as it is now
-    if 'Gen/Tr.v' in cone or 'Gen/TrF.v' in cone:
+    if 'Gen/Tr.v' in cone or 'Gen/TrF.v' in cone or 'Gen/TrS.v' in cone:
         try:
             regenerate_tr()
         except Exception as e:   # the translator is fail-closed: an unsupported construct is a broken tie
@@ -313,7 +314,7 @@ def check_proofs(pid, res, tier='quick'):
             except Exception as e:
                 problems.append('Gen/G%s.v could not be regenerated from /repo: %s' % (
                     m.group(1), ''.join(traceback.format_exception_only(type(e), e)).strip()))
-    info['source_translated'] = [d for d in cone if d in ('Gen/Tr.v', 'Gen/TrF.v')]
+    info['source_translated'] = [d for d in cone if d in ('Gen/Tr.v', 'Gen/TrF.v', 'Gen/TrS.v')]
     hits = scan_forbidden([d for d in cone if os.path.exists(os.path.join(COQ, d))])
     if hits:
         problems.append('forbidden vernacular in development: ' + ', '.join(hits[:10]))
